@@ -8,6 +8,7 @@ recovered from the indentation equals the tree of the HTML output for the same a
 """
 import itertools
 from emmet import expand, markup_abbreviation, stringify_markup
+from mc import session
 from emmet.config import Config
 from mc.lexers import lex_html
 from mc.ref import abbr_model as M
@@ -38,6 +39,9 @@ KINDS = {
     'x{l1\nl2 ${1:f} l3}': dict(name='x', text=['l1', 'l2 f l3']),
     'x{l1 ${1:g}\nl2${0}}': dict(name='x', text=['l1 g', 'l2']),
     'x{l1\n\nl3}': dict(name='x', text=['l1', '', 'l3']),          # an empty text line is a line
+    # the other two spellings of a line break, and a line break directly before a field (the text chunk ends with it)
+    'x{l1\rl2}': dict(name='x', text=['l1', 'l2']), 'x{l1\r\nl2}': dict(name='x', text=['l1', 'l2']),
+    'x{l1\n${1:f}}': dict(name='x', text=['l1', 'f']),
     # an implied attribute without a value is not written (also when it is the only / the last one); with a value it is
     'x[!t]': dict(name='x'), 'x[a=b !t]': dict(name='x', attrs=[('a', 'b')]), 'x[!t=v]': dict(name='x', attrs=[('t', 'v')]),
     # boolean attributes (listed names, matched whatever their letter case) in each syntax's own boolean form
@@ -45,7 +49,7 @@ KINDS = {
     'x.k1.k2.k3.k4.k5.k6.k7.k8.k9.k10.k11': dict(name='x', cls=['k%d' % i for i in range(1, 12)]),
 }
 SMALL = ['x', '.c', 'x#i.c[a=b d]', 'x{l1\nl2}', 'br/', 'div[a=b]']
-MID = ['x', '.c', 'x#i.c[a=b d]', 'x{l1\nl2}', 'br/', 'x[hidden=until a=b]', 'x[e={v} a=b]', 'x{l1\nl2 ${1:f} l3}', 'x{l1\n\nl3}', 'x[a=b !t]', 'x[disabled a=b]']
+MID = ['x', '.c', 'x#i.c[a=b d]', 'x{l1\nl2}', 'br/', 'x[hidden=until a=b]', 'x[e={v} a=b]', 'x{l1\nl2 ${1:f} l3}', 'x{l1\n\nl3}', 'x[a=b !t]', 'x[disabled a=b]', 'x{l1\rl2}']
 TINY = ['x', '.c', 'x{l1\nl2}', 'br/']
 SYNTAXES = ['haml', 'pug', 'slim']
 INDENTS = ['\t', '  ', '    ']
@@ -175,7 +179,7 @@ def check(seq, labels, syntax, indent):
     abbr = M.render(seq, labels)
     tree = M.unroll(M.denote(seq, labels))
     try:
-        out = expand(abbr, {'syntax': syntax, 'options': {'output.indent': indent, 'inlineElements': []}})
+        out = expand(abbr, {'syntax': syntax, 'options': {'output.indent': indent, 'inlineElements': []}, 'cache': session.CACHE})     # shared per shard (mc/session.py)
     except Exception as e:
         return abbr, [('exception:%s' % type(e).__name__, str(e)[:120])]
     bad = []
